@@ -114,6 +114,73 @@ pub struct SiteCase {
     /// what the contract that runs the site already holds when the probed call arrives
     #[serde(default)]
     pub prior: Option<Prior>,
+    /// what governance did to the factory's parameters between the creation of the minter
+    /// and the probed call
+    #[serde(default)]
+    pub gov: Option<Gov>,
+}
+
+/// A sudo UpdateParams on the factory AFTER the minter was created.  The numbers in `Site`
+/// are the ones in force when the probed call arrives: the mint price a minter stored at its
+/// creation, and the factory's CURRENT mint_fee_bps / airdrop price and bps / shuffle fee.
+#[derive(Clone, Debug, Serialize, Deserialize, PartialEq, Eq, PartialOrd, Ord)]
+pub struct Gov {
+    /// new factory min_mint_price in ustars (lowered or raised; an existing minter keeps its price)
+    pub min_mint_price: Option<u128>,
+    /// the parameters the contract reads at call time were different when the minter was
+    /// created (Some(true): higher, Some(false): lower) and governance set them to the values
+    /// of `Site` afterwards
+    pub created_with_higher: Option<bool>,
+}
+fn decoy_amount(v: u128, gov: &Option<Gov>) -> u128 {
+    match gov.as_ref().and_then(|g| g.created_with_higher) {
+        Some(true) => v * 2 + 7,
+        Some(false) => v / 2,
+        None => v,
+    }
+}
+fn decoy_bps(v: u64, gov: &Option<Gov>) -> u64 {
+    match gov.as_ref().and_then(|g| g.created_with_higher) {
+        Some(true) if v < 10_000 => (v + 1_234).min(10_000),
+        Some(_) => v / 2,
+        None => v,
+    }
+}
+/// the factory the contract of the case was created by, and the UpdateParams of the case
+fn apply_gov(st: &mut Stage, c: &SiteCase, g: &Gov) -> Result<(), String> {
+    let (kind, shuffle, mint_bps, airdrop): (FactoryKind, Option<u128>, Option<u64>, Option<(u128, u64)>) = match &c.site {
+        Site::BaseMint { bps, .. } => (FactoryKind::Base, None, Some(*bps), None),
+        Site::Shuffle { minter, fee, .. } => (minter.factory(), Some(*fee), None, None),
+        Site::Mint { minter, mode: MintMode::Airdrop, price, bps, .. } => (minter.factory(), None, None, Some((*price, *bps))),
+        Site::Mint { minter, bps, .. } => (minter.factory(), None, Some(*bps), None),
+        _ => return Err("governance changes are only staged for the sites that read factory parameters at call time".into()),
+    };
+    let cfg = wf::query_json(&st.app, &Addr::unchecked(st.contract.clone()), &json!({"config": {}}))?;
+    fn find_factory(v: &Value) -> Option<String> {
+        match v {
+            Value::Object(m) => m.get("factory").and_then(|f| f.as_str()).map(|x| x.to_string()).or_else(|| m.values().find_map(find_factory)),
+            _ => None,
+        }
+    }
+    let factory = Addr::unchecked(find_factory(&cfg).ok_or("the contract's config names no factory")?);
+    let set = g.created_with_higher.is_some();
+    let oc = |v: Option<u128>| v.map(|a| jc(a, NATIVE)).unwrap_or(Value::Null);
+    let mut m = json!({"code_id": null, "add_sg721_code_ids": null, "rm_sg721_code_ids": null, "frozen": null,
+        "creation_fee": null, "max_trading_offset_secs": null});
+    if kind != FactoryKind::TokenMerge {
+        m["min_mint_price"] = oc(g.min_mint_price);
+        m["mint_fee_bps"] = json!(if set { mint_bps } else { None });
+    }
+    let ap = if set { airdrop.map(|a| a.0) } else { None };
+    let ab = if set { airdrop.map(|a| a.1) } else { None };
+    m["extension"] = match kind {
+        FactoryKind::Base => Value::Null,
+        FactoryKind::Vending | FactoryKind::TokenMerge => json!({"max_token_limit": null, "max_per_address_limit": null,
+            "airdrop_mint_price": oc(ap), "airdrop_mint_fee_bps": ab, "shuffle_fee": oc(if set { shuffle } else { None })}),
+        FactoryKind::OpenEdition => json!({"max_token_limit": null, "max_per_address_limit": null, "min_mint_price": null,
+            "airdrop_mint_fee_bps": ab, "airdrop_mint_price": oc(ap), "dev_fee_address": null}),
+    };
+    wf::sudo_json(&mut st.app, &factory, &json!({"update_params": m})).map(|_| ()).map_err(|e| format!("sudo update_params: {}", e))
 }
 
 /// A balance the calling contract holds before the probed call: sent to its address by a
@@ -364,6 +431,9 @@ fn public_mint_msg(kind: MinterKind, proof: Option<Vec<String>>) -> Value {
 /// staged (a harness problem or a site the tree under test no longer lets us reach).
 pub fn run_case(c: &SiteCase) -> Result<Outcome, String> {
     let (mut st, probe) = stage_case(c)?;
+    if let Some(g) = &c.gov {
+        apply_gov(&mut st, c, g)?;
+    }
     if let Some(p) = &c.prior {
         fund_contract(&mut st, p)?;
     }
@@ -407,7 +477,8 @@ fn stage_case(c: &SiteCase) -> Result<(Stage, Probe), String> {
         }
         Site::Shuffle { minter, fee, by_admin } => {
             let fee = *fee;
-            let w = wf::setup_minter_with(*minter, |p, _| p.shuffle_fee = (NATIVE.to_string(), fee))?;
+            let fee0 = decoy_amount(fee, &c.gov);
+            let w = wf::setup_minter_with(*minter, |p, _| p.shuffle_fee = (NATIVE.to_string(), fee0))?;
             let mut app = w.app;
             let who = if *by_admin { wf::CREATOR } else { BUYER };
             rich(&mut app, who, &funds);
@@ -513,7 +584,7 @@ fn stage_case(c: &SiteCase) -> Result<(Stage, Probe), String> {
             let (price, bps) = (*price, *bps);
             let w = wf::setup_minter_with(MinterKind::Base, |p, _| {
                 p.min_mint_price = (NATIVE.to_string(), price);
-                p.mint_fee_bps = bps;
+                p.mint_fee_bps = decoy_bps(bps, &c.gov);
             })?;
             let mut app = w.app;
             rich(&mut app, wf::CREATOR, &funds);
@@ -523,7 +594,7 @@ fn stage_case(c: &SiteCase) -> Result<(Stage, Probe), String> {
                 wf::exec_json(app, wf::CREATOR, &m, &json!({"mint": {"token_uri": "ipfs://bafybeiavall5udkxkdtdm4djezoxrmfc6o5fn2ug3ymrlvibvwmwydgrkm/1.jpg"}}), &funds)
             }))
         }
-        Site::Mint { minter, mode, native, price, bps, by_creator, dev } => run_mint(*minter, *mode, *native, *price, *bps, *by_creator, dev.clone(), funds),
+        Site::Mint { minter, mode, native, price, bps, by_creator, dev } => run_mint(*minter, *mode, *native, *price, *bps, *by_creator, dev.clone(), &c.gov, funds),
     }
 }
 
@@ -536,8 +607,11 @@ fn run_mint(
     bps: u64,
     by_creator: bool,
     devcfg: Option<DevCfg>,
+    gov: &Option<Gov>,
     funds: Vec<Coin>,
 ) -> Result<(Stage, Probe), String> {
+    let (bps0, price0) = (decoy_bps(bps, gov), decoy_amount(price, gov));
+    let lowers_min = gov.as_ref().map(|g| g.min_mint_price.is_some()).unwrap_or(false);
     let d = denom_of(native).to_string();
     let devcfg = if is_oe(minter) { devcfg } else { None };
     // the developer account the ledger names (an empty string names nobody)
@@ -555,17 +629,18 @@ fn run_mint(
             let dd = d.clone();
             let at_instantiate = devcfg.as_ref().filter(|c| !c.by_sudo).map(|c| c.address.clone());
             let w = wf::setup_minter_with(minter, |p, req| {
-                p.min_mint_price = (dd.clone(), 1);
+                // a later lowering of the factory minimum starts from the minter's own price
+                p.min_mint_price = (dd.clone(), if lowers_min { if airdrop { 77_000_000 } else { price } } else { 1 });
                 if let Some(a) = &at_instantiate {
                     p.dev_fee_address = a.clone();
                 }
                 if airdrop {
-                    p.airdrop_mint_price = (dd.clone(), price);
-                    p.airdrop_mint_fee_bps = bps;
+                    p.airdrop_mint_price = (dd.clone(), price0);
+                    p.airdrop_mint_fee_bps = bps0;
                     p.mint_fee_bps = 1_234;
                     req.mint_price = (dd.clone(), 77_000_000);
                 } else {
-                    p.mint_fee_bps = bps;
+                    p.mint_fee_bps = bps0;
                     p.airdrop_mint_fee_bps = 4_321;
                     req.mint_price = (dd.clone(), price);
                 }
@@ -589,7 +664,7 @@ fn run_mint(
                 let mut cfg = SaleCfg::basic(vi);
                 cfg.fp.denom = d.clone();
                 cfg.fp.min_price = 1;
-                cfg.fp.mint_fee_bps = bps;
+                cfg.fp.mint_fee_bps = bps0;
                 cfg.fp.airdrop_fee_bps = 4_321;
                 cfg.price = price + 5;
                 cfg.wl_price = price;
@@ -626,7 +701,7 @@ fn run_mint(
                 let mut cfg = OeCfg::basic(oi);
                 cfg.fp.denom = d.clone();
                 cfg.fp.min_price = 1;
-                cfg.fp.mint_fee_bps = bps;
+                cfg.fp.mint_fee_bps = bps0;
                 cfg.fp.airdrop_fee_bps = 4_321;
                 cfg.price = price + 5;
                 cfg.wl_price = price;
@@ -919,6 +994,28 @@ pub fn monitor(c: &SiteCase, o: &Outcome) -> Vec<(String, String)> {
             );
         }
     }
+    // every unit the payer paid as the fee went where the schedule sends it: with the exact
+    // payment nothing of it is left in the contract (the vending / token-merge minters keep
+    // the rest of an airdrop price, which is C02's recorded finding, not a fee matter)
+    let keeps_airdrop_rest = matches!(&c.site, Site::Mint { mode: MintMode::Airdrop, minter, .. } if !is_oe(*minter));
+    if pay == Some(e.required) && !keeps_airdrop_rest {
+        for d in [NATIVE, IBC] {
+            if o.delta(&o.contract, d) > 0 {
+                bad!(
+                    "fee-stranded",
+                    format!(
+                        "{} {} of the payment {:?} stayed in the contract {}: the payer was charged {} but only {} was burned / pooled / sent",
+                        o.delta(&o.contract, d),
+                        d,
+                        c.funds,
+                        o.contract,
+                        p,
+                        total
+                    )
+                );
+            }
+        }
+    }
     // the payer paid what was attached (a seller who pays an airdrop also receives the remainder)
     if o.seller.as_deref() != Some(o.payer.as_str()) && o.delta(&o.payer, fd) != -(p as i128) {
         bad!("payer", format!("payer's {} changed by {}, the payment was {}", fd, o.delta(&o.payer, fd), p));
@@ -1029,7 +1126,7 @@ fn payments(req: u128, denom: &str, all: bool) -> Vec<Vec<(String, u128)>> {
 
 pub fn gen_cases(thorough: bool, rng: &mut Rng) -> Vec<SiteCase> {
     let mut out: Vec<SiteCase> = vec![];
-    let mut push = |site: Site, funds: Vec<(String, u128)>| out.push(SiteCase { site, funds, prior: None });
+    let mut push = |site: Site, funds: Vec<(String, u128)>| out.push(SiteCase { site, funds, prior: None, gov: None });
 
     // ---- creation fee: four factories x fee denom x mint denom x fee values x payments
     let mut fees: Vec<u128> = vec![1, 2, 3, 4, 5, 999_999_999, 5_000_000_000, 1_000_000_000_000_000_000_000_000_000_001];
@@ -1182,6 +1279,7 @@ pub fn gen_cases(thorough: bool, rng: &mut Rng) -> Vec<SiteCase> {
                             site: Site::Mint { minter: *m, mode, native: true, price, bps, by_creator: false, dev },
                             funds: n(price),
                             prior: None,
+                            gov: None,
                         });
                     }
                     if mode == MintMode::Whitelist && price != 7 {
@@ -1190,6 +1288,7 @@ pub fn gen_cases(thorough: bool, rng: &mut Rng) -> Vec<SiteCase> {
                             site: Site::Mint { minter: *m, mode, native: true, price, bps, by_creator: false, dev },
                             funds: n(price),
                             prior: None,
+                            gov: None,
                         });
                     }
                 }
@@ -1264,7 +1363,52 @@ pub fn gen_cases(thorough: bool, rng: &mut Rng) -> Vec<SiteCase> {
                 ps = vec![ps[1].clone(), ps[0].clone(), ps[4].clone()];
             }
             for f in ps {
-                out.push(SiteCase { site: site.clone(), funds: f, prior: Some(prior.clone()) });
+                out.push(SiteCase { site: site.clone(), funds: f, prior: Some(prior.clone()), gov: None });
+            }
+        }
+    }
+    // ---- governance changed the factory parameters after the minter was created: the
+    // minimum mint price lowered (to a fifth) and raised (threefold) under an existing
+    // minter, and the parameters read at call time (mint_fee_bps, airdrop price and bps,
+    // shuffle fee) created higher / lower and then set to the values of the case
+    let govs = |stored_price: u128| -> Vec<Gov> {
+        vec![
+            Gov { min_mint_price: Some((stored_price / 5).max(1)), created_with_higher: None },
+            Gov { min_mint_price: Some(stored_price * 3), created_with_higher: None },
+            Gov { min_mint_price: None, created_with_higher: Some(true) },
+            Gov { min_mint_price: None, created_with_higher: Some(false) },
+            Gov { min_mint_price: Some((stored_price / 5).max(1)), created_with_higher: Some(true) },
+            Gov { min_mint_price: Some(stored_price * 3), created_with_higher: Some(false) },
+        ]
+    };
+    let mut gov_sites: Vec<(Site, u128, u128)> = vec![]; // (site, required payment, the minter's stored price)
+    for (price, bps) in [(100_000_000u128, 1000u64), (50_000_000, 10_000), (30, 1000)] {
+        gov_sites.push((Site::BaseMint { price, bps }, price * bps as u128 / 10_000, price));
+    }
+    for m in MinterKind::ALL.iter().filter(|m| matches!(m.factory(), FactoryKind::Vending | FactoryKind::TokenMerge)) {
+        gov_sites.push((Site::Shuffle { minter: *m, fee: 500_000_000, by_admin: false }, 500_000_000, 100_000_000));
+    }
+    for m in MinterKind::ALL.iter().filter(|m| **m != MinterKind::Base) {
+        for mode in [MintMode::Public, MintMode::Airdrop, MintMode::Whitelist] {
+            if *m == MinterKind::TokenMerge && mode != MintMode::Airdrop {
+                continue;
+            }
+            let stored = if mode == MintMode::Airdrop { 77_000_000 } else { 100_000_000 };
+            gov_sites.push((Site::Mint { minter: *m, mode, native: true, price: 100_000_000, bps: 1000, by_creator: false, dev: None }, 100_000_000, stored));
+        }
+    }
+    for (site, req, stored) in gov_sites {
+        let token_merge = matches!(&site, Site::Shuffle { minter: MinterKind::TokenMerge, .. } | Site::Mint { minter: MinterKind::TokenMerge, .. });
+        for g in govs(stored) {
+            if token_merge && g.min_mint_price.is_some() {
+                continue; // the token-merge factory has no min_mint_price
+            }
+            let mut ps = vec![n(req)];
+            if g.created_with_higher.is_none() || thorough {
+                ps.push(n(req - 1));
+            }
+            for f in ps {
+                out.push(SiteCase { site: site.clone(), funds: f, prior: None, gov: Some(g.clone()) });
             }
         }
     }
